@@ -441,6 +441,9 @@ def _child_is_wrapper_name(child: Node) -> bool:
         return _scoped_name_matches_wrapper(child)
     if child.type == "field_expression":
         return _method_name_matches_wrapper(child)
+    if child.type == "generic_function":  # spawn_blocking::<_, ()>(...)
+        callee = child.child_by_field_name("function")
+        return callee is not None and _child_is_wrapper_name(callee)
     return False
 
 
